@@ -101,9 +101,9 @@ func genTagsMalformed(r *core.RNG) json.RawMessage {
 // ---------------------------------------------------------------------------------------------
 
 type lgen struct {
-	r   *core.RNG
-	n   int
-	odd bool // the odd stream: inline block comments, several declarations on one line, multi-line trailing blocks
+	r     *core.RNG
+	n     int
+	odd   bool // the odd stream: inline block comments, several declarations on one line, multi-line trailing blocks
 	split bool // names of one declaration on several lines (known finding name_on_continuation_line)
 }
 
@@ -516,7 +516,7 @@ func exhaustiveLayouts() []json.RawMessage {
 	mk := func(k int, name string) *Cmt {
 		switch k {
 		case 1:
-			return lc(" " + name, " +tag="+name)
+			return lc(" "+name, " +tag="+name)
 		case 2:
 			return bc(" " + name + " ")
 		}
